@@ -6,7 +6,11 @@ Extracted with Python's ast, fail closed (anything outside the subset => exit 1,
     and the shape of Project.find that gives it meaning (LINK_TYPES[entity.lower()] / chain over
     LINK_TYPES.values())
   * ford/sourceform.py: the module-level dict literal SUBLINK_TYPES, and FortranBase.children:
-    the attribute names handed to self.iterator(...) in order and the list non_list_children
+    the attribute names handed to self.iterator(...) in order and the list non_list_children;
+    the module-level dict literal SCOPE_LINK_TYPES (kind word -> tuple of attribute names) and the shape of
+    FortranBase.find_in_scope / find_child that give it meaning
+  * ford/_markdown.py: convert_link searches the context with find_in_scope, and handleMatch turns
+    ValueError / RuntimeError into a warning and plain text (the model's [settle])
 """
 import ast
 import os
@@ -53,6 +57,58 @@ def str_dict(tree, name, where):
                 and n.func.value.id == name and n.func.attr in ("update", "pop", "setdefault", "clear", "popitem"):
             refuse(f"{where}: {name}.{n.func.attr}() is called")
     return out
+
+
+def str_tuple_dict(tree, name, where):
+    found = [n for n in tree.body if isinstance(n, ast.Assign) and len(n.targets) == 1
+             and isinstance(n.targets[0], ast.Name) and n.targets[0].id == name]
+    if len(found) != 1:
+        refuse(f"{where}: expected exactly one module-level assignment to {name}, found {len(found)}")
+    d = found[0].value
+    if not isinstance(d, ast.Dict):
+        refuse(f"{where}: {name} is not a dict literal")
+    out = []
+    for k, v in zip(d.keys, d.values):
+        if not (isinstance(k, ast.Constant) and isinstance(k.value, str) and k.value == k.value.lower()
+                and k.value.isascii()):
+            refuse(f"{where}: {name} has a key that is not a lower-case ASCII literal")
+        out.append((k.value, str_list(v, f"{name}[{k.value!r}]")))
+    if len({k for k, _ in out}) != len(out):
+        refuse(f"{where}: duplicate key in {name}")
+    for n in ast.walk(tree):
+        if isinstance(n, ast.Subscript) and isinstance(n.ctx, (ast.Store, ast.Del)) and isinstance(n.value, ast.Name) \
+                and n.value.id == name:
+            refuse(f"{where}: {name} is modified after its definition")
+    return out
+
+
+def check_scope_lookup(sf, mdtree):
+    cls = [n for n in sf.body if isinstance(n, ast.ClassDef) and n.name == "FortranBase"][0]
+    fns = {n.name: ast.unparse(n) for n in cls.body if isinstance(n, ast.FunctionDef)}
+    if "find_in_scope" not in fns:
+        refuse("sourceform.py: FortranBase.find_in_scope not found")
+    for needle in ["if entity is None:\n        return self.find_child(name)",
+                   "collections = SCOPE_LINK_TYPES[entity.lower()]",
+                   "except KeyError:\n        return self.find_child(name, entity)",
+                   "return _find_in_list(self.iterator(*collections), name)"]:
+        if needle not in fns["find_in_scope"]:
+            refuse(f"FortranBase.find_in_scope no longer contains `{needle}`")
+    for needle in ["collection_name = SUBLINK_TYPES[entity.lower()]", "if not hasattr(self, collection_name):",
+                   "collection = getattr(self, collection_name)",
+                   "if collection is None:\n            collection = []",
+                   "elif isinstance(collection, FortranBase):\n            collection = [collection]",
+                   "collection = self.children", "return _find_in_list(collection, name)"]:
+        if needle not in fns["find_child"]:
+            refuse(f"FortranBase.find_child no longer contains `{needle}`")
+    pcls = [n for n in mdtree.body if isinstance(n, ast.ClassDef) and n.name == "FordLinkProcessor"]
+    if len(pcls) != 1:
+        refuse("_markdown.py: FordLinkProcessor not found")
+    pf = {n.name: ast.unparse(n) for n in pcls[0].body if isinstance(n, ast.FunctionDef)}
+    if "return context.find_in_scope(name, m['entity'])" not in pf.get("convert_link", ""):
+        refuse("convert_link no longer searches the context with find_in_scope")
+    for needle in ["link = self.convert_link(m)", "except (ValueError, RuntimeError) as e:", "link.text = m['name']"]:
+        if needle not in pf.get("handleMatch", ""):
+            refuse(f"FordLinkProcessor.handleMatch no longer contains `{needle}`")
 
 
 def str_list(node, where):
@@ -126,6 +182,8 @@ def main():
         sub = str_dict(sf, "SUBLINK_TYPES", "sourceform.py")
         attrs, non_list = children_lists(sf)
         check_find(fp)
+        scope = str_tuple_dict(sf, "SCOPE_LINK_TYPES", "sourceform.py")
+        check_scope_lookup(sf, ast.parse((REPO / "ford" / "_markdown.py").read_text()))
     except (Refuse, SyntaxError, OSError) as e:
         print("T2 refuses:", e)
         sys.exit(1)
@@ -143,11 +201,15 @@ def main():
             f"Definition sublink_types : list (str * str) :=\n  {pairs(sub)}.\n\n"
             f"(* FortranBase.children: the list attributes chained, in order; then the single-item ones *)\n"
             f"Definition children_attrs : list str :=\n  {strs(attrs)}.\n"
-            f"Definition non_list_children : list str :=\n  {strs(non_list)}.\n")
+            f"Definition non_list_children : list str :=\n  {strs(non_list)}.\n\n"
+            f"(* SCOPE_LINK_TYPES: component kind word -> attributes of an enclosing entity searched by find_in_scope *)\n"
+            f"Definition scope_link_types : list (str * list str) :=\n  ["
+            + ";\n   ".join(f"({coq_str(k)}, {strs(v)})" for k, v in scope) + "].\n")
     if not OUT.exists() or OUT.read_text() != text:
         OUT.parent.mkdir(parents=True, exist_ok=True)
         OUT.write_text(text)
-    print("T2 ok:", len(link), "link types,", len(sub), "sublink types,", len(attrs), "child attributes")
+    print("T2 ok:", len(link), "link types,", len(sub), "sublink types,", len(attrs), "child attributes,",
+          len(scope), "scope kinds")
 
 
 if __name__ == "__main__":
